@@ -29,7 +29,8 @@ def TN (s : State) (x : Thr) : Prop :=
       (GcPc x.pc ∧ x.gcont = .repl) ∨ x.pc = .rAssert) ∧
   (x.op = .replace → x.pc = .rSize ∨ x.pc = .rCas ∨ (GcPc x.pc ∧ x.gcont = .repl) ∨ x.pc = .rAssert) ∧
   (x.op = .del → x.pc = .dSize ∨ x.pc = .dLd ∨ x.pc = .dOr ∨ (GcPc x.pc ∧ x.gcont = .del) ∨ x.pc = .dAssert ∨
-      x.pc = .dLd2 ∨ x.pc = .dXchg)
+      x.pc = .dLd2 ∨ x.pc = .dXchg) ∧
+  (x.pc = .aCas → x.mode = .plain → x.iter.ptr = 0 ∨ s.rev x.node < s.rev x.iter.ptr)
 
 def InvN (s : State) : Prop := ∀ u, TN s (s.th u)
 
@@ -58,14 +59,14 @@ theorem TN_other {c s s' t l o w} (hc : c.ownerByOr = false) (r : Reach c s) (st
     (hut : t ≠ w) (h : TN s (s.th w)) : TN s' (s'.th w) := by
   obtain ⟨a1, a2, a3, a4, a5, a6, a7, a8, a9, a10, a11⟩ := other_thread_args st hut
   have stable := stable_step hc r st
-  obtain ⟨h1, h2, h3, h4, h5, h6, h7, h8, h8b, h9, h10, h11, h12, h13⟩ := h
+  obtain ⟨h1, h2, h3, h4, h5, h6, h7, h8, h8b, h9, h10, h11, h12, h13, h14⟩ := h
   have hpc : (s'.th w).pc = (s.th w).pc ∨ ((s.th w).pc = .idle ∧ (s'.th w).pc = .hStart) ∨
       ((s.th w).pc = .hDone ∧ (s'.th w).pc = .idle) := by
     rcases other_thread_pc st hut with e | e | e
     · exact .inl (by rw [e])
     · exact .inr (.inl e)
     · exact .inr (.inr e)
-  refine ⟨?_, ?_, ?_, ?_, ?_, ?_, ?_, ?_, ?_, ?_, ?_, ?_, ?_, ?_⟩
+  refine ⟨?_, ?_, ?_, ?_, ?_, ?_, ?_, ?_, ?_, ?_, ?_, ?_, ?_, ?_, ?_⟩
   · rw [a1]; intro hp
     rcases other_thread_pc st hut with e | ⟨e, _⟩ | ⟨e, _⟩
     · rw [e] at hp; exact h1 hp
@@ -150,6 +151,22 @@ theorem TN_other {c s s' t l o w} (hc : c.ownerByOr = false) (r : Reach c s) (st
     · rw [e]; exact h13
     · rw [a1]; intro ho; have := h1 (.inl e); rw [this] at ho; cases ho
     · rw [a1]; intro ho; have := h1 (.inr (.inr (.inl (.inr e)))); rw [this] at ho; cases ho
+  · have hth := other_thread_pc st hut
+    rcases hth with e | ⟨_, e⟩ | ⟨_, e⟩
+    · rw [e]; intro hp hm
+      have ⟨_, hF, _⟩ := invRFL_reach hc r
+      have fw := hF.t w; simp only [TF] at fw
+      have f10 := fw.2.2.2.2.2.2.2.2.2.1 (by simp [HasPos, hp])
+      have hop := h8 (.inr (.inl ⟨by simp [AddPc, hp], by rw [hm]; simp⟩))
+      have b4 := (h2 (.inl hop)).2.2.2
+      rcases h14 hp hm with g | g
+      · exact .inl g
+      · by_cases i0 : (s.th w).iter.ptr = 0
+        · exact .inl i0
+        · right
+          rw [(stable _ b4).1, (stable _ (f10.2.2.2.2 i0).1).1]; exact g
+    · intro hp; rw [e] at hp; cases hp
+    · intro hp; rw [e] at hp; cases hp
 
 set_option maxHeartbeats 4000000 in
 /-- `TN` for the acting thread -/
@@ -165,6 +182,8 @@ theorem TN_self {c s s' t l o} (hc : c.ownerByOr = false) (r : Reach c s) (st : 
   have l11 := lt.2.2.2.2.2.2.2.2.2.2.1
   have f14 := ft.2.2.2.2.2.2.2.2.2.2.2.2.2.1
   have f19 := ft.2.2.2.2.2.2.2.2.2.2.2.2.2.2.2.2.2.2.1
+  have f10 := ft.2.2.2.2.2.2.2.2.2.1
+  have sip := stable_step hc r st (s.th t).iter.ptr
   clear lt ft
   have stable := stable_step hc r st
   have sn := stable (s.th t).node; have so := stable (s.th t).old; have si := stable (s.th t).itn
@@ -177,22 +196,22 @@ theorem TN_self {c s s' t l o} (hc : c.ownerByOr = false) (r : Reach c s) (st : 
     st_open st; st_open2
     all_goals
       have e1 : s'.th t = x' := by rw [e_th']; simp [upd]
-      rw [e1]; simp only [TN, xop, xmode, xnode, xhs, xky, xold, xoldnx, xrh, xwk, xitn, xitx, xpc, xgcont, e_rev, e_key, e_life]
+      rw [e1]; simp only [TN, xop, xmode, xnode, xhs, xky, xold, xoldnx, xrh, xwk, xitn, xitx, xpc, xgcont, xiter, e_rev, e_key, e_life]
       grind [Worker, AddPc, GcPc, HPc, ZPc]
   | join v =>
     st_open st; st_open2
     all_goals
       have e1 : s'.th t = x' := by rw [e_th']; simp [upd]
-      rw [e1]; simp only [TN, xop, xmode, xnode, xhs, xky, xold, xoldnx, xrh, xwk, xitn, xitx, xpc, xgcont, e_rev, e_key, e_life]
+      rw [e1]; simp only [TN, xop, xmode, xnode, xhs, xky, xold, xoldnx, xrh, xwk, xitn, xitx, xpc, xgcont, xiter, e_rev, e_key, e_life]
       grind [Worker, AddPc, GcPc, HPc, ZPc]
   | _ =>
     st_open st
     all_goals
       have e1 : s'.th t = x' := by rw [e_th']; simp [upd]
       (try (have hop0 : (s.th t).op = .none := by
-              have h1 := h.1; simp only [ZPc, HPc, Worker, AddPc, GcPc] at h1; clear h sn so si ln lo; grind))
-      rw [e1]; simp only [TN, xop, xmode, xnode, xhs, xky, xold, xoldnx, xrh, xwk, xitn, xitx, xpc, xgcont]
-      simp only [e_rev, e_key, e_life, upd] at sn so si ln lo ⊢
+              have h1 := h.1; simp only [ZPc, HPc, Worker, AddPc, GcPc] at h1; clear h sn so si ln lo sip; grind))
+      rw [e1]; simp only [TN, xop, xmode, xnode, xhs, xky, xold, xoldnx, xrh, xwk, xitn, xitx, xpc, xgcont, xiter]
+      simp only [e_rev, e_key, e_life, upd] at sn so si ln lo sip ⊢
       grind [found, valid, vz, Worker, AddPc, GcPc, HPc, ZPc]
 
 theorem invN_step {c s s' t l o} (hc : c.ownerByOr = false) (r : Reach c s) (hN : InvN s)
